@@ -34,6 +34,8 @@ pub mod timing;
 
 pub mod checks;
 pub mod cpustep;
+pub mod gen;
+pub mod progrun;
 pub mod jitstep;
 pub mod refm;
 pub mod util;
